@@ -650,6 +650,9 @@ func coreOfTypeParam(tp *types.TypeParam) types.Type {
 			default:
 				return nil
 			}
+		case *types.Slice, *types.Map:
+			// `S []T`: a single non-tilde term is stored as the type itself
+			core = e
 		}
 	}
 	return core
